@@ -619,10 +619,113 @@ def rule_matcolors(c, prog):
         c.violation(R, "materialcolors|constants", f"MaterialColors: encode writes a {prefix}-byte prefix, decode skips {skip} chunks of {chunk} bytes and demands {total} bytes for {order_len} materials; these must satisfy skip*chunk == prefix and total == prefix + 3*materials", dec.sp, instance="materialcolors:constants")
 
 
+def rule_brick(c, prog, R="C17.brick"):
+    """BrickColor: number <-> colour is a bijection over the table, and a name selects the first colour carrying it"""
+    c.rule(R, "BrickColor tables (read as tables, whatever their form — match arms or a lookup built once): from_number(v as u16) = Some(v) for every colour v; the name printed by Display for v is accepted by from_name and yields a colour with that same name, namely the FIRST colour of the table carrying it (the documented collision rule for Gold, Rust, Lilac, Deep orange); names of distinct colours otherwise differ")
+    BC = "rbx_types::brick_color::BrickColor"
+    adt = prog.adts.get(BC)
+    if adt is None:
+        raise core.AnchorMissing("BrickColor not found")
+    order = [v["name"] for v in adt["variants"]]
+    discr = {v["name"]: v["discr"] for v in adt["variants"]}
+
+    def variant_of(e):
+        for y in core.walk(e):
+            if y.get("k") == "Path" and (y.get("def") or "").startswith(BC + "::") and y["def"].rsplit("::", 1)[-1] in discr:
+                return y["def"].rsplit("::", 1)[-1]
+        return None
+
+    def lit_of(p):
+        for y in core.walk(p) if isinstance(p, dict) and "k" in p else []:
+            if y.get("k") == "Lit":
+                return core.lit_value(y)
+        if isinstance(p, dict) and p.get("k") == "Expr":
+            return core.lit_value(p["e"])
+        return None
+
+    def table(fn, key_kind):
+        """ordered [(key literal, variant)] of a lookup function, and how a repeated key is resolved ('first' | 'last')"""
+        rows, mode = [], None
+        for n in core.walk_fn(fn):
+            if n.get("k") == "Match" and n.get("src") == "Normal" and len(n["arms"]) > 20:
+                for arm in n["arms"]:
+                    k = lit_of(arm["pat"])
+                    v = variant_of(arm["body"])
+                    if k is not None and v is not None:
+                        rows.append((k, v))
+                mode = "first"
+        if rows:
+            return rows, mode
+        # a table built once: HashMap / BTreeMap filled by insert (a repeated key: last wins) or entry().or_insert (first wins),
+        # in the function itself or in an initialiser it reaches (lazy_static / OnceLock)
+        bodies = [fn]
+        for g_ in list(bodies):
+            for x in core.walk_fn(g_):
+                pass
+        cands = [f for f in prog.lib_fns() if f.body is not None and f.crate == "rbx_types" and "brick_color" in f.path and f is not fn]
+        for g_ in [fn] + cands:
+            ins = []
+            for x in core.walk_fn(g_):
+                if x.get("k") == "MethodCall" and x["m"] == "insert" and len(x["args"]) == 2 and "Map<" in (core.strip(x["recv"]).get("ty") or ""):
+                    k, v = core.lit_value(core.strip(x["args"][0])), variant_of(x["args"][1])
+                    if k is not None and v is not None:
+                        ins.append((core.loc(x), k, v, "last"))
+                if x.get("k") == "MethodCall" and x["m"] in ("or_insert", "or_insert_with") and core.strip(x["recv"]).get("k") == "MethodCall" and core.strip(x["recv"])["m"] == "entry":
+                    k, v = core.lit_value(core.strip(core.strip(x["recv"])["args"][0])), variant_of(x["args"][0])
+                    if k is not None and v is not None:
+                        ins.append((core.loc(x), k, v, "first"))
+            if len(ins) > 20:
+                modes = {m_ for _, _, _, m_ in ins}
+                return [(k, v) for _, k, v, _ in ins], (modes.pop() if len(modes) == 1 else "mixed")
+        return [], None
+
+    def resolve(rows, mode):
+        out = {}
+        for k, v in rows:
+            if mode == "first":
+                out.setdefault(k, v)
+            else:
+                out[k] = v
+        return out
+    # Display: variant -> name
+    disp = prog.impl_fn("core::fmt::Display", BC, "fmt")
+    names = {}
+    for n in core.walk_fn(disp):
+        if n.get("k") == "Match" and n.get("src") == "Normal":
+            for arm in n["arms"]:
+                v = core.pat_str(arm["pat"]).rsplit("::", 1)[-1]
+                lits = [core.lit_value(y) for y in core.walk(arm["body"]) if y.get("k") == "Lit" and isinstance(core.lit_value(y), str)]
+                if v in discr and lits:
+                    names[v] = lits[0]
+    num_rows, num_mode = table(prog.fn(BC + "::from_number"), "int")
+    name_rows, name_mode = table(prog.fn(BC + "::from_name"), "str")
+    c.floor(R, len(names), 200, "BrickColor names")
+    if not num_rows or not name_rows or name_mode in (None, "mixed"):
+        c.violation(R, "tables|cannot-read", f"BrickColor::from_number / from_name are in a form the table reader does not understand (rows: {len(num_rows)}, {len(name_rows)}; mode {name_mode})", prog.fn(BC + "::from_name").sp, instance="brickcolor:tables")
+        return
+    by_num = resolve(num_rows, num_mode)
+    by_name = resolve(name_rows, name_mode)
+    first_with = {}
+    for v in order:
+        first_with.setdefault(names.get(v), v)
+    bad_num = [v for v in order if by_num.get(discr[v]) != v]
+    if bad_num:
+        c.violation(R, f"number|{bad_num[0]}", f"BrickColor::from_number({discr[bad_num[0]]}) gives {by_num.get(discr[bad_num[0]])}, not {bad_num[0]} whose number that is ({len(bad_num)} colours affected)", prog.fn(BC + "::from_number").sp, instance="brickcolor:number-bijection")
+    else:
+        c.ok(R, "brickcolor:number-bijection", len(order))
+    bad_name = [(v, by_name.get(names.get(v))) for v in order if by_name.get(names.get(v)) != first_with.get(names.get(v))]
+    if bad_name:
+        v, got = bad_name[0]
+        c.violation(R, f"name|{names.get(v)}", f"BrickColor::from_name({names.get(v)!r}) gives {got}; the table's first colour of that name is {first_with.get(names.get(v))} ({len(bad_name)} colours affected): for the colliding names (Gold, Rust, Lilac, Deep orange) the documented winner is the first one, which is what Roblox resolves the name to", prog.fn(BC + "::from_name").sp, instance="brickcolor:name-first-wins")
+    else:
+        c.ok(R, "brickcolor:name-first-wins", len(order))
+
+
 def run(c, prog):
     rule_owned(c, prog)
     rule_text(c, prog)
     rule_pair(c, prog)
     rule_names(c, prog)
     rule_matcolors(c, prog)
+    rule_brick(c, prog)
     c.not_decided += ["value-exact survival through serde_json / bincode / rmp-serde (third-party number formatting)", "re-encoding equality of the allValues.json fixture"]
